@@ -548,6 +548,31 @@ func checkC16(e *core.Env) {
 					viol("result/unary", fmt.Sprintf("%s: caller got response %v, want payload %q", full, resp, wantPayload), got)
 				}
 			}
+			if carrier == "direct" || carrier == "registry" {
+				// the same decorated method reached through another carrier: it is that carrier's interceptor
+				// that runs (first), not the one of whoever called first
+				seen = nil
+				t2 := c16Layer{name: "T2", unary: true, beh: bPass}
+				dec2 := func(m interface{}) error {
+					m.(*tpb.Message).Payload = req.Payload
+					return nil
+				}
+				if pan := guard(func() { md.Handler(svc, context.Background(), dec2, t2.unaryInt(log, &seen)) }); pan != "" {
+					viol("panic", pan, nil)
+					return
+				}
+				evs := log.take()
+				okFirst := len(evs) > 0 && strings.HasPrefix(evs[0], "enter T2 ")
+				stale := false
+				for _, ev := range evs {
+					if strings.HasPrefix(ev, "enter T ") {
+						stale = true
+					}
+				}
+				if !okFirst || stale {
+					viol("trace/unary-second-carrier", fmt.Sprintf("%s called again with another transport-level interceptor (T2): observed trace %q", full, evs), evs)
+				}
+			}
 		}
 		callStream := func(si int) {
 			sd := final.Streams[si]
